@@ -177,16 +177,23 @@ def runOp (op : String) (j : Json) : P (Json × Json) := do
   | "viewFields" => do
     let c ← pcolOfJson (← fld j "col")
     let fs ← listOf strOf (← fld j "fields")
-    pure (resJson (pcolToJson <$> NArr.viewFields c fs), resJson (lcolToJson <$> Spec.viewFields c.abs fs))
+    -- through the accessor (`.nest[[f, …]]`)
+    pure (resJson (pcolToJson <$> (fun (s : NSeries Cell) => s.col) <$> NSeries.getFields { index := [], col := c } fs),
+          resJson (lcolToJson <$> Spec.viewFields c.abs fs))
   | "popFields" => do
     let c ← pcolOfJson (← fld j "col")
     let fs ← listOf strOf (← fld j "fields")
-    pure (resJson (pcolToJson <$> NArr.popFields c fs), resJson (lcolToJson <$> Spec.popFields c.abs fs))
+    -- through the accessor (`.nest.without_field`)
+    pure (resJson (pcolToJson <$> (fun (s : NSeries Cell) => s.col) <$> NSeries.withoutField { index := [], col := c } fs),
+          resJson (lcolToJson <$> Spec.popFields c.abs fs))
   | "setListField" => do
     let c ← pcolOfJson (← fld j "col")
     let f ← strOf (← fld j "field"); let t ← strOf (← fld j "ty")
     let v ← plistOfJson (← fld j "value"); let keep ← boolOf (fldD j "keep" (.bool false))
-    pure (resJson (pcolToJson <$> NArr.setListField c f t v keep),
+    -- keep = false: through the accessor (`.nest.with_list_field`); keep = true: the array's own in-place call
+    let r := if keep then NArr.setListField c f t v keep
+             else (fun (s : NSeries Cell) => s.col) <$> NSeries.withListField { index := [], col := c } f t v
+    pure (resJson (pcolToJson <$> r),
           resJson (lcolToJson <$> Spec.setListField c.abs f t v.rows keep))
   | "setFlatField" => do
     let c ← pcolOfJson (← fld j "col")
